@@ -97,6 +97,8 @@ def query_from_ref(rng, ref, kind, refs=None):
             sub2 = [sub2[-1] - x + sub2[0] for x in reversed(sub2)]
         base = (max(q) if q else 0) + rng.randint(2000, 9000)
         q += [base + (p - sub2[0]) for p in sub2]
+    elif kind == 'deletion-between-repeats':
+        return deletion_between_repeats_query(rng, ref, refs)
     elif kind == 'translocation':
         # first part from `ref`, second part from ANOTHER contig at a nearby coordinate just behind it (same strand), so that
         # the two records of the molecule are on different contigs but within maxDifference of each other
@@ -431,3 +433,62 @@ def far_reference_case(rng, offset=None, nq=6):
     P = dict(DEFAULTS)
     P['d'] = rng.choice([1500, 300, 800])
     return {'refs': refs, 'queries': queries, 'qclass': qclass, 'params': P, 'mode': rng.choice(MODES)}
+
+
+def translocation_case(rng):
+    """One or two molecules whose two halves come from two different contigs at neighbouring coordinates on the same strand,
+    with reference label numbers that keep rising across the junction (contig 2 has a dense head) - the situation in
+    which a join that forgets to compare the contigs produces a plausible-looking record."""
+    p1 = gen_ref(rng, rng.randint(70, 110), mean=9000, mn=2000, decimals=True, repeats=False)
+    head = sorted(round(rng.uniform(1000, p1[len(p1) // 2]), 1) for _ in range(len(p1)))      # dense head: high label numbers early
+    tail = [x for x in gen_ref(rng, rng.randint(60, 90), mean=9000, mn=2000, decimals=True, repeats=False)]
+    tail = [round(x + p1[len(p1) // 2], 1) for x in tail]
+    p2 = sorted(set(head + tail))
+    refs = [[1, round(p1[-1] + 5000, 1), p1], [2, round(p2[-1] + 5000, 1), p2]]
+    queries, qclass = [], {}
+    for j in range(rng.randint(1, 2)):
+        k = rng.randint(len(p1) // 2 - 5, len(p1) // 2 + 5)
+        na, nb = rng.randint(14, 22), rng.randint(9, 13)
+        A = p1[k - na:k]
+        c = A[-1]
+        start2 = next((i for i, x in enumerate(p2) if x > c + rng.randint(2000, 30000)), None)
+        if start2 is None or start2 + nb >= len(p2):
+            continue
+        B = p2[start2:start2 + nb]
+        q = [x - A[0] for x in A]
+        base = q[-1] + (B[0] - c)
+        q += [base + (x - B[0]) for x in B]
+        q = [x + rng.gauss(0, 80) for x in q]
+        qp, ql = finish_query(rng, q, flip=rng.random() < 0.3)
+        queries.append([j + 1, ql, qp])
+        qclass[str(j + 1)] = 'translocation-two-contigs'
+    if not queries:
+        qp, ql = query_from_ref(rng, p1, 'clean', refs)
+        queries.append([1, ql, qp])
+        qclass['1'] = 'clean'
+    P = dict(DEFAULTS)
+    P['diff'] = rng.choice([100000, 500000])
+    return {'refs': refs, 'queries': queries, 'qclass': qclass, 'params': P, 'mode': rng.choice(MODES)}
+
+
+def deletion_between_repeats_query(rng, ref, refs=None):
+    """Molecule spanning a deletion whose two ends carry the same short label motif: the motif labels are aligned by the
+    first-pass record (left copy) and by the second-pass record (right copy) - a join attempt over shared query labels."""
+    n = len(ref)
+    if n < 60:
+        return query_from_ref(rng, ref, 'indel', refs)
+    a = rng.randint(5, n - 50)
+    left = ref[a:a + rng.randint(16, 24)]
+    gap_labels = rng.randint(5, 9)
+    b = ref.index(left[-1]) + gap_labels
+    right = ref[b:b + rng.randint(9, 13)]
+    if len(right) < 8:
+        return query_from_ref(rng, ref, 'indel', refs)
+    q = [x - left[0] for x in left]
+    # the molecule continues after the left part with the labels of the right part, glued at the motif (last 2-3 labels
+    # of `left` have the spacing of the first labels of `right` only approximately - enough to be paired within maxDistance)
+    m = rng.randint(2, 3)
+    glue = q[-m]
+    q = q[:-m] + [glue + (x - right[0]) for x in right]
+    q = [x + rng.gauss(0, 60) for x in q]
+    return finish_query(rng, q)
